@@ -269,3 +269,160 @@ Proof.
   destruct (arun (zip_step false) s1 prog) as [s2 rs]. destruct (aspec_run true bs1 prog) as [bs2 ps].
   cbn [fst snd proj14_all] in *. now rewrite P, IH.
 Qed.
+
+(* ---------------------------------------------------------------- no panics, for every operation *)
+(* every open handle on a file is z_ok for its entry (directories and closed handles never reach a
+   slice expression) *)
+Definition z_inv (h : zh) : Prop := zisdir h = false -> zclosed h = false -> exists e, z_ok e h.
+Definition zs_inv (s : zst) : Prop := Forall z_inv (zhs s).
+
+Lemma Rz_of_ok e h : z_ok e h -> Rz e h (mkBH (Z.to_nat (zoff h)) false true).
+Proof.
+  intros K. split; [reflexivity|]. split; [apply K|]. split; [apply K|]. intros _. split; [exact K|].
+  cbn. pose proof (zk_off _ _ K). lia.
+Qed.
+
+Lemma Rz_inv e h b : Rz e h b -> z_inv h.
+Proof. intros (_ & _ & Hcl & Hopen) _ Ho. exists e. apply Hopen. congruence. Qed.
+
+Lemma bh_local_not99 strict c b o : snd (bh_local strict c b o) <> PErr 99.
+Proof.
+  destruct o; cbn; try discriminate.
+  - destruct (bclosed b); cbn; discriminate.
+  - destruct (bclosed b); cbn; [discriminate|]. destruct (off <? 0); cbn; discriminate.
+  - destruct (bclosed b); cbn; [discriminate|]. destruct (negb (ok_whence whence)); cbn; [discriminate|].
+    match goal with |- context [if ?c then _ else _] => destruct c end; cbn; [discriminate|].
+    match goal with |- context [if ?c then _ else _] => destruct c end; cbn; discriminate.
+Qed.
+
+Lemma proj14_panic o : proj14 o RPanic = PErr 99.
+Proof. destruct o; reflexivity. Qed.
+
+Lemma z_handle_op_inv h :
+  z_inv h ->
+  (forall n, snd (z_read h n) <> RPanic /\ z_inv (fst (z_read h n))) /\
+  (forall n off, snd (z_readat false h n off) <> RPanic /\ z_inv (fst (z_readat false h n off))) /\
+  (forall off wh, snd (z_seek h off wh) <> RPanic /\ z_inv (fst (z_seek h off wh))).
+Proof.
+  intros Hi. unfold z_inv in Hi.
+  destruct (zisdir h) eqn:Ed.
+  { repeat split; intros; unfold z_read, z_readat, z_seek; rewrite Ed; cbn; try discriminate; congruence. }
+  destruct (zclosed h) eqn:Ec.
+  { repeat split; intros; unfold z_read, z_readat, z_seek; rewrite Ed, Ec; cbn; try discriminate; congruence. }
+  destruct (Hi eq_refl eq_refl) as [e K]. pose proof (Rz_of_ok e h K) as R.
+  repeat split; intros.
+  - destruct (z_read_local e h _ 0%nat n R) as [P _]. intros E. rewrite E, proj14_panic in P.
+    symmetry in P. now apply bh_local_not99 in P.
+  - destruct (z_read_local e h _ 0%nat n R) as [_ R']. now apply Rz_inv in R'.
+  - destruct (z_readat_local e h _ 0%nat n off R) as [P _]. intros E. rewrite E, proj14_panic in P.
+    symmetry in P. now apply bh_local_not99 in P.
+  - destruct (z_readat_local e h _ 0%nat n off R) as [_ R']. now apply Rz_inv in R'.
+  - destruct (z_seek_local e h _ 0%nat off wh R) as [P _]. intros E. rewrite E, proj14_panic in P.
+    symmetry in P. now apply bh_local_not99 in P.
+  - destruct (z_seek_local e h _ 0%nat off wh R) as [_ R']. now apply Rz_inv in R'.
+Qed.
+
+Lemma z_inv_fresh e : z_inv (z_fresh e).
+Proof.
+  intros Hd _. exists e. destruct (Rz_fresh e Hd) as (_ & _ & _ & H). now apply H.
+Qed.
+
+Lemma z_open_inv s p : zs_inv s -> snd (z_open s p) <> RPanic /\ zs_inv (fst (z_open s p)).
+Proof.
+  intros Hi. unfold z_open. destruct (splitpath p) as [d f].
+  destruct (is_empty f).
+  { cbn. split; [discriminate|]. apply Forall_app; split; [exact Hi|]. constructor; [|constructor].
+    intros Hd; cbn in Hd; discriminate. }
+  destruct (alist_get d (zix s)) as [m|]; [|cbn; split; [discriminate|exact Hi]].
+  destruct (alist_get f m) as [e|]; [|cbn; split; [discriminate|exact Hi]].
+  cbn. split; [discriminate|]. apply Forall_app; split; [exact Hi|]. constructor; [|constructor].
+  apply z_inv_fresh.
+Qed.
+
+Lemma zip_step_inv s o :
+  zs_inv s -> snd (zip_step false s o) <> RPanic /\ zs_inv (fst (zip_step false s o)).
+Proof.
+  intros Hi.
+  assert (Hh : forall i h, nth_error (zhs s) i = Some h -> z_inv h).
+  { intros i h E. eapply Forall_nth_error; eauto. }
+  destruct o; unfold zip_step;
+    try (cbn; split; [discriminate|exact Hi]);
+    try (destruct (nth_error (zhs s) h) as [h0|] eqn:En; [|cbn; split; [discriminate|exact Hi]]).
+  - (* Open *) now apply z_open_inv.
+  - (* OpenFile *) destruct (negb (flag =? o_rdonly)); [cbn; split; [discriminate|exact Hi]|now apply z_open_inv].
+  - (* Stat *)
+    cbn [fst snd]. split; [|exact Hi]. unfold z_stat. destruct (splitpath p) as [d f].
+    destruct (is_empty f); [discriminate|]. destruct (alist_get d (zix s)) as [m|]; [|discriminate].
+    destruct (alist_get f m); discriminate.
+  - (* HRead *)
+    destruct (z_handle_op_inv h0 (Hh _ _ En)) as (H1 & _ & _). destruct (H1 n) as [P I].
+    cbn [fst snd]. split; [exact P|]. now apply Forall_list_set.
+  - (* HReadAt *)
+    destruct (z_handle_op_inv h0 (Hh _ _ En)) as (_ & H1 & _). destruct (H1 n off) as [P I].
+    cbn [fst snd]. split; [exact P|]. now apply Forall_list_set.
+  - (* HWrite *) cbn; split; [discriminate|exact Hi].
+  - (* HWriteAt *) cbn; split; [discriminate|exact Hi].
+  - (* HWriteString *) cbn; split; [discriminate|exact Hi].
+  - (* HSeek *)
+    destruct (z_handle_op_inv h0 (Hh _ _ En)) as (_ & _ & H1). destruct (H1 off whence) as [P I].
+    cbn [fst snd]. split; [exact P|]. now apply Forall_list_set.
+  - (* HTruncate *) cbn; split; [discriminate|exact Hi].
+  - (* HClose *)
+    cbn [fst snd]. split; [discriminate|]. apply Forall_list_set; [exact Hi|].
+    intros _ Hc; cbn in Hc; discriminate.
+  - (* HReaddir *)
+    cbn [fst snd]. split; [|exact Hi]. unfold z_readdir. destruct (z_dir_entries (zix s) h0); discriminate.
+  - (* HReaddirnames *)
+    cbn [fst snd]. split; [|exact Hi]. unfold z_readdirnames. destruct (z_dir_entries (zix s) h0); discriminate.
+  - (* HStat *) cbn [fst snd]. split; [|exact Hi]. unfold z_hstat. destruct (zfile h0); discriminate.
+  - (* HName *) cbn; split; [discriminate|exact Hi].
+  - (* HSync *) cbn; split; [discriminate|exact Hi].
+Qed.
+
+Lemma zip_run_inv prog : forall s, zs_inv s ->
+  ~ In RPanic (snd (arun (zip_step false) s prog)) /\ zs_inv (fst (arun (zip_step false) s prog)).
+Proof.
+  induction prog as [|o prog IH]; intros s Hi; [cbn; tauto|].
+  cbn [arun]. destruct (zip_step_inv s o Hi) as [P I].
+  destruct (zip_step false s o) as [s1 r]. cbn [fst snd] in *.
+  destruct (IH s1 I) as [P' I']. destruct (arun (zip_step false) s1 prog) as [s2 rs]. cbn [fst snd] in *.
+  split; [|exact I']. intros [E|H]; [now apply P|now apply P'].
+Qed.
+
+(* C14 (b) for zipfs: whatever the archive and whatever the program (all operations, any number of
+   handles on any entries, any offsets), no call panics *)
+Theorem zip_never_panics : forall (a : archive) (prog : list op), ~ In RPanic (zip_run false a prog).
+Proof. intros a prog. apply zip_run_inv. constructor. Qed.
+
+(* ---------------------------------------------------------------- EOF is never early *)
+Lemma z_read_eof h n x er :
+  z_inv h -> snd (z_read h n) = RData x (Some er) -> is_eof er = true ->
+  exists e, zfile (fst (z_read h n)) = Some e /\ zoff (fst (z_read h n)) = esize e.
+Proof.
+  intros Hi. unfold z_read.
+  destruct (zisdir h) eqn:Ed. { cbn. intros E; inversion E; subst; discriminate. }
+  destruct (zclosed h) eqn:Ec. { cbn. intros E; inversion E; subst; discriminate. }
+  destruct (Hi Ed Ec) as [e K]. rewrite (zk_file _ _ K).
+  pose proof (fill_buffer_ok e h (zoff h + Z.max 0 n) K) as (K1 & Ho1 & Hmin & Herr).
+  destruct (fill_buffer e h (zoff h + Z.max 0 n)) as [h1 err]. cbn [fst snd] in *.
+  pose proof (zk_off _ _ K) as Hrange. pose proof (z_ok_buf_le _ _ K1) as Lb.
+  destruct ((zoff h <? 0) || (zlen (zbuf h1) <? zoff h)) eqn:Enp; [discriminate|].
+  apply orb_false_iff in Enp as [_ Hle]. apply Z.ltb_ge in Hle.
+  cbn [fst snd]. intros E Heof. inversion E; subst x err. exists e. split; [cbn; apply K1|].
+  destruct (esize e <? zoff h + Z.max 0 n) eqn:Et; [|discriminate]. apply Z.ltb_lt in Et.
+  cbn. unfold zlen. rewrite firstn_length, skipn_length. unfold esize, zlen in *. lia.
+Qed.
+
+Theorem zip_eof_only_at_end : forall (a : archive) (prog : list op) (i : nat) (n : Z) x er,
+  let s := fst (arun (zip_step false) (zip_init false a) prog) in
+  snd (zip_step false s (HRead i n)) = RData x (Some er) -> is_eof er = true ->
+  exists h e, nth_error (zhs (fst (zip_step false s (HRead i n)))) i = Some h /\
+              zfile h = Some e /\ zoff h = esize e.
+Proof.
+  intros a prog i n x er s. 
+  assert (Hi : zs_inv s) by (apply zip_run_inv; constructor).
+  unfold zip_step. destruct (nth_error (zhs s) i) as [h|] eqn:En; [|cbn; discriminate].
+  cbn [fst snd zhs]. intros E Heof.
+  destruct (z_read_eof h n x er (Forall_nth_error _ _ _ _ Hi En) E Heof) as (e & F & O).
+  exists (fst (z_read h n)), e. split; [|auto]. eapply nth_error_list_set_same; eauto.
+Qed.
